@@ -1,6 +1,104 @@
-From Coq Require Import List String.
-From GinV Require Import Model.Values Model.Gin.
+(* C05 — macros and constants are late-bound named values.
+   Model: the Gin machine (Model/Gin.v): '%name' is resolved at parse time to an evaluated reference to the
+   builtin configurable gin.macro under the scope spelled by the name (or to gin.constant for a name matching
+   a Python-defined constant); 'name = value' binds gin.macro's parameter 'value' under that scope.
+   Proved here:
+     - late binding: what a use of %name yields is a function of the store AT THE TIME OF USE only
+       (the value currently bound), never of the history of definitions or of their order relative to
+       the use; a macro bound to an evaluated reference evaluates it at every use (the use IS an
+       evaluation of the bound value); an unbound macro raises at use;
+     - parse-time resolution depends only on the registry and the constants;
+     - constants: a unique dotted-suffix match yields that constant, an ambiguous abbreviation is an error;
+     - finalize: the macro hook accepts iff every macro reference occurring (at any depth) in a bound value
+       is evaluated and names a bound macro; otherwise finalize raises.
+   Validated only (harness/props/c05.py): identity of the delivered constant OBJECT and duplicate /
+   invalid constant definitions (C20 / C13 cover gin.constant's registration errors in the model). *)
+From Coq Require Import List String ZArith Bool Arith.
+From GinV Require Import Lib.Out Lib.PyStr Model.SelectorMap Model.Values Model.Gin Model.GinEngine Model.CallSpec
+                         Proofs.CallLemmas Proofs.CallProofs Proofs.MachineFrame Proofs.MachineProofs Proofs.MacroOperProofs.
 Import ListNotations.
-Theorem C05_placeholder : prefixes [1;2] = [[]; [1]; [1;2]].
-Proof. reflexivity. Qed.
-Print Assumptions C05_placeholder.
+Open Scope string_scope.
+Open Scope list_scope.
+
+(* a use is a reference to gin.macro under the scope the name spells *)
+Theorem C05_use_is_reference : forall s name, sm_matching (to_key name) (constants s) = [] ->
+  resolve s (VMacro name) = Ok (VRef (split_slash name) "gin.macro" true).
+Proof. exact MacroOperProofs.C05_use_is_reference. Qed.
+
+(* a definition is a binding of gin.macro.value under that scope *)
+Theorem C05_definition_is_binding : forall f s name v v' scope sel,
+  resolve s v = Ok v' -> contains_char dot name = false -> parse_scoped_selector name = (scope, sel) ->
+  exec (S f) s (OParse name v) =
+  run_res (bind_split s (if String.eqb scope "" then sel else (scope ++ "/" ++ sel)%string) "gin.macro" "value" v') ONone.
+Proof. exact MacroOperProofs.C05_definition_is_binding_explicit. Qed.
+
+(* resolution at parse time reads only the registry and the constants: not the store, so a use may precede its definition *)
+Theorem C05_resolution_is_static : forall s1 s2 v,
+  reg s1 = reg s2 -> constants s1 = constants s2 -> resolve s1 v = resolve s2 v.
+Proof. exact resolve_depends_on_reg_constants. Qed.
+
+(* the use yields the value bound NOW (exact final state: only the operative record gains the macro's section) *)
+Theorem C05_use_evaluates_to_current_binding : forall f s name v,
+  atomic v -> scope_valid (split_slash name) = true ->
+  lookup_sel s "gin.macro" = Some macro_cfg ->
+  sget "value" (get_bindings_for (config s) (split_slash name) "gin.macro" true) = Some v ->
+  (forall p x, sget p (get_bindings_for (config s) (split_slash name) "gin.macro" true) = Some x -> p = "value") ->
+  eval (S (S (S (S f)))) s (VRef (split_slash name) "gin.macro" true) =
+  (oper_update s (scope_str (split_slash name), "gin.macro") [("value", v)], Ok v).
+Proof. exact C05_use_evaluates_to_current_binding_exact. Qed.
+
+(* two histories that end with the same current binding give the same value *)
+Theorem C05_late_binding_history_independent : forall f s1 s2 name v,
+  atomic v -> scope_valid (split_slash name) = true ->
+  lookup_sel s1 "gin.macro" = Some macro_cfg -> lookup_sel s2 "gin.macro" = Some macro_cfg ->
+  get_bindings_for (config s1) (split_slash name) "gin.macro" true = [("value", v)] ->
+  get_bindings_for (config s2) (split_slash name) "gin.macro" true = [("value", v)] ->
+  snd (eval (S (S (S (S f)))) s1 (VRef (split_slash name) "gin.macro" true)) = Ok v /\
+  snd (eval (S (S (S (S f)))) s2 (VRef (split_slash name) "gin.macro" true)) = Ok v.
+Proof. exact MacroOperProofs.C05_late_binding_history_independent. Qed.
+
+(* any bound value (e.g. an evaluated reference @g()) is evaluated AT the use, every time *)
+Theorem C05_use_reevaluates_bound_value : forall f s sc v, sc <> [] -> scope_valid sc = true ->
+  lookup_sel s "gin.macro" = Some macro_cfg ->
+  get_bindings_for (config s) sc "gin.macro" true = [("value", v)] ->
+  eval (S (S (S f))) s (VRef sc "gin.macro" true) =
+  (let '(s2, r) := eval f (oper_update (set_scopes (sc :: scopes s) s) (scope_str sc, "gin.macro") [("value", v)]) v in
+   (set_scopes (tl (scopes s2)) s2, r)).
+Proof. exact C05_use_evaluates_bound_value_gen. Qed.
+
+Theorem C05_unbound_macro_raises : forall f s sc, sc <> [] -> scope_valid sc = true ->
+  lookup_sel s "gin.macro" = Some macro_cfg ->
+  get_bindings_for (config s) sc "gin.macro" true = [] ->
+  eval (S (S (S f))) s (VRef sc "gin.macro" true) = (oper_update s (scope_str sc, "gin.macro") [], Raise "TypeError").
+Proof. exact macro_use_unbound_exact. Qed.
+
+(* constants *)
+Theorem C05_constant_unique : forall s name k, sm_matching (to_key name) (constants s) = [k] ->
+  resolve s (VMacro name) = Ok (VRef (split_slash (of_key k)) "gin.constant" true).
+Proof. exact MacroOperProofs.C05_constant_unique. Qed.
+Theorem C05_constant_ambiguous : forall s name k1 k2 r, sm_matching (to_key name) (constants s) = k1 :: k2 :: r ->
+  resolve s (VMacro name) = Raise "ValueError".
+Proof. exact MacroOperProofs.C05_constant_ambiguous. Qed.
+
+(* finalize *)
+Theorem C05_macros_hook_iff : forall s, macros_hook_ok s = true <->
+  (forall ck p k v sc ev, In (ck, p) (config s) -> In (k, v) p -> In (VRef sc "gin.macro" ev) (flat_values 50 v) ->
+     amem ckey_eqb (scope_str sc, "gin.macro") (config s) = true /\ ev = true).
+Proof. exact MacroOperProofs.C05_macros_hook_iff. Qed.
+Theorem C05_finalize_rejects_bad_macro : forall s ck p k v sc ev, locked s = false ->
+  cget ck (config s) = Some p -> sget k p = Some v -> In (VRef sc "gin.macro" ev) (flat_values 50 v) ->
+  (amem ckey_eqb (scope_str sc, "gin.macro") (config s) = false \/ ev = false) ->
+  exists s', finalize s = (s', Raise "ValueError").
+Proof. exact MacroOperProofs.C05_finalize_rejects_bad_macro. Qed.
+
+Print Assumptions C05_use_is_reference.
+Print Assumptions C05_definition_is_binding.
+Print Assumptions C05_resolution_is_static.
+Print Assumptions C05_use_evaluates_to_current_binding.
+Print Assumptions C05_late_binding_history_independent.
+Print Assumptions C05_use_reevaluates_bound_value.
+Print Assumptions C05_unbound_macro_raises.
+Print Assumptions C05_constant_unique.
+Print Assumptions C05_constant_ambiguous.
+Print Assumptions C05_macros_hook_iff.
+Print Assumptions C05_finalize_rejects_bad_macro.
